@@ -25,6 +25,13 @@ func capPageSize(pageSize int) int {
 	return pageSize
 }
 
+func checkPageSize(pageSize int32) error {
+	if pageSize < 0 {
+		return status.Errorf(codes.InvalidArgument, "bad page size: %d is negative", pageSize)
+	}
+	return nil
+}
+
 func decodePageToken(token string, pageToken *types.PageToken) error {
 	if token != "" {
 		tokenBytes, err := base64.StdEncoding.DecodeString(token)
